@@ -17,6 +17,10 @@ def main():
     t0 = time.time()
     ctx = Ctx(pid, tier, seed)
 
+    # 0. harness against the working tree (the translator asks the compiled library for the data-type table, defaults
+    #    and flag layout; a failure is recorded below, the translator then falls back to the source text)
+    ok_h, out_h = C.build_harness()
+
     # 1. translator: constants from /repo's working tree
     ok, msg = C.extract_constants()
     C.log("[%s] %s" % (pid, msg))
@@ -52,8 +56,7 @@ def main():
     ctx.checker_cmd = checker_cmd
     ctx.model_ok = ok_drv
 
-    # 4. harness against the working tree
-    ok_h, out_h = C.build_harness()
+    # 4. harness against the working tree (built in step 0)
     if not ok_h:
         ctx.tie_break("harness-build", tail(out_h))
         ctx.impl_ok = False
